@@ -223,23 +223,33 @@ pub fn gen_design_case(d: &mut Draw, known_per_mille: u32) -> SynthCase {
             }
             break;
         }
+        // what can be rewritten in place is rewritten, the rest is drawn again
+        for h in crate::synth_findings::repair(&mut g.design) {
+            classes.push(format!("excluded(repaired):{h}"));
+        }
+        let hits = crate::synth_findings::design_hits(&g.design);
+        if hits.is_empty() {
+            break;
+        }
         for h in &hits {
             classes.push(format!("excluded:{h}"));
         }
         tries += 1;
-        if tries >= 6 {
-            // give up on the full dialect: no signed values, no flip-flops
-            let mut c2 = cfg.clone();
-            c2.signed = false;
-            c2.sign_casts = false;
-            c2.always_ff = false;
-            g = gen_design(d, &c2);
-            if !crate::synth_findings::design_hits(&g.design).is_empty() {
-                classes.push("excluded:gave-up".into());
-            }
+        if tries >= 5 {
+            classes.push("excluded:gave-up".into());
             break;
         }
-        g = gen_design(d, &cfg);
+        // second and later attempts: unsigned designs (most expression-level findings need a signed operand)
+        let mut c2 = cfg.clone();
+        if tries >= 2 {
+            c2.signed = false;
+            c2.sign_casts = false;
+        }
+        if tries >= 4 {
+            c2.div = false;
+            c2.shifts = false;
+        }
+        g = gen_design(d, &c2);
     }
     let cycles = 6 + d.below(10) as usize;
     let stim = gen_stimulus(d, &g.design, cycles);
